@@ -6,13 +6,15 @@ every stream implementation overrides every primitive; R3 the real-number text f
 doubles; R4 every mutable field of every serialised record is read by the writer; R5 the FFT image
 of the bootstrapping key is recomputed from the key that was read.
 Not decided: byte-identical ciphertexts from a reloaded key (runtime statement).
+R6 every Istream::getLine hands over every character of the line it consumes (no fixed-size line buffer, nothing but
+CR / LF / EOF dropped).
 """
 import re
 
 from sa import api, ioseq, sym
 from sa.facts import Program, walk
 from sa.ioseq import IOHooks, extract_ops, attach_reader_details, flat_ops, show_op
-from sa.symexec import run_function, flat
+from sa.symexec import run_function, flat, Hooks
 from sa.sym import ZERO, I
 
 OBJ = sym.sym("$obj")
@@ -561,6 +563,7 @@ def run(chk):
                             chk.refuted("R4", k4, where=pr["w"].where,
                                         detail="field assigned by %s but never read while exporting %s" % (
                                             sorted(writers)[:3], tname), variant=vn)
+        check_getline(chk, v)
         # R2: transports agree
         names = sorted({t for t, _ in pairs})
         for tname in names:
@@ -606,3 +609,78 @@ def run(chk):
                     break
             chk.require(ok, "R5", "%s/%s: FFT image recomputed from the key just read" % (tname, transport),
                         where=pr["r"].where, ok=detail, bad=detail, variant=vn)
+
+
+# ------------------------------------------------------------------------------ R6: getLine delivers whole lines
+CHAR_SOURCES = ("fgetc", "getc", "std::fgetc", "std::getc")
+BOUNDED_SOURCES = ("fgets", "std::fgets", "fread", "std::fread")
+
+
+def check_getline(chk, v):
+    """Every text property is one line `name: value`; the value of a real field needs up to 24 characters.  Each
+    Istream::getLine must hand over every character of the line it consumes (only '\\r', the terminating '\\n' and EOF may be
+    dropped): delegation to std::getline(stream, string), or a character loop in which every path that consumed a character
+    appends it unless the path established that the character is '\\r', '\\n' or EOF; a bounded read (fgets, fread) of a
+    fixed-size buffer cuts long lines and is accepted only when nothing consumed is discarded."""
+    from sa.symexec import paths
+    vn = v.name
+    impls = [f for f in v.defined() if f.name == "getLine" and f.get("record") and
+             any("Istream" in b for b in v.records.get(f.record, {}).get("bases", []))]
+    chk.vcount(vn, "R6.getline_impls", len(impls))
+    for f in impls:
+        eff, st, ex = run_function(v, f, hooks=Hooks())
+        key = "%s::getLine delivers every character of the line it consumes" % f.record
+        calls = [x for x in flat(eff) if x["e"] == "call"]
+        names = [x["name"] for x in calls]
+        out = f.params[0]["n"]
+        if any(n in ("std::getline", "getline") for n in names) and not any(n in CHAR_SOURCES + BOUNDED_SOURCES for n in names):
+            gl = next(x for x in calls if x["name"] in ("std::getline", "getline"))
+            ok = len(gl["args"]) == 2 and sym.root_of(gl["args"][1]) is not None and sym.root_of(gl["args"][1])[1] == out
+            chk.require(ok, "R6", key, where=f.where, ok="std::getline(stream, %s): unbounded" % out,
+                        bad="std::getline is not called on (stream, %s)" % out, variant=vn)
+            continue
+        problems = []
+        bounded = [x for x in calls if x["name"] in BOUNDED_SOURCES]
+        for b in bounded:
+            sz = b["args"][1] if b["name"].endswith("fgets") else None
+            problems.append("%s at line %s reads at most %s characters into a fixed buffer" % (b["name"], b["l"], sym.show(sz) if sz is not None else "n"))
+        # character variables: locals assigned from a character source
+        cvars = {("var", x["name"], x["id"]) for x in flat(eff) if x["e"] == "local" and isinstance(x.get("val"), tuple)
+                 and x["val"][0] == "call" and x["val"][1] in CHAR_SOURCES}
+        if not cvars and not bounded:
+            chk.broken("%s::getLine: no character source recognised (%s)" % (f.record, names[:5]))
+        SKIP = {-1, 10, 13}
+        discarded = []
+        for x in flat(eff):
+            if x["e"] not in ("while", "loop"):
+                continue
+            body = x["body"] + (x.get("latch") or [])
+            src_in_loop = any(y["e"] == "local" and ("var", y["name"], y["id"]) in cvars for y in flat(body)) or \
+                any(sym.contains(x.get("cond") or ("int", 0), c) for c in cvars)
+            if not src_in_loop:
+                continue
+            # conditions that must hold to enter the body
+            entry = x.get("cond")
+            for leaves, conds, status in paths(body):
+                for c in cvars:
+                    excused = False
+                    for cnd, pol, line in conds:
+                        if cnd[0] == "op" and cnd[1] in ("==", "!=") and c in (cnd[2], cnd[3]):
+                            other = cnd[3] if cnd[2] == c else cnd[2]
+                            kv = sym.const_value(other)
+                            if kv in SKIP and pol == (cnd[1] == "=="):
+                                excused = True
+                    appended = any(y["e"] == "call" and re.search(r"::(push_back|append|operator\+=)$", y["name"]) and
+                                   sym.root_of(y.get("this") or ("int", 0)) is not None and sym.root_of(y["this"])[1] == out and
+                                   any(a is not None and sym.contains(a, c) for a in y["args"]) for y in leaves)
+                    if not excused and not appended:
+                        discarded.append("a character read into '%s' is dropped on the loop path with conditions %s (loop at line %s)" % (
+                            c[1], [("" if pol else "!") + sym.show(cnd) for cnd, pol, _ in conds] or "none", x["l"]))
+        problems += sorted(set(discarded))[:2]
+        if bounded and not discarded:
+            # a bounded read whose remainder is not discarded: cannot be decided here
+            chk.broken("%s::getLine: bounded read %s without a discarding loop is not analysed" % (f.record, bounded[0]["name"]))
+        chk.require(not problems, "R6", key, where=f.where,
+                    ok="character loop: every consumed character other than CR / LF / EOF is appended to %s" % out,
+                    bad="; ".join(problems)[:600] + " -- a line longer than the buffer (a 17-digit real with exponent is 33 characters) loses its tail silently",
+                    variant=vn)
